@@ -44,6 +44,33 @@ class C07(Property):
             cases.append(Case("dec9 " + hexs(data), tags=(tag,)))
         for f, d in bundled()[: (6 if tier == "quick" else 1000)]:
             cases.append(Case("dec9 " + hexs(d), tags=("bundled",)))
+        # files whose first line is indented (no version line, a section header behind blanks / a tab): what opens the first
+        # section depends on the first column, for every decoder and every entry point alike (seed C07-l)
+        for _ in range(40 if tier == "quick" else 1500):
+            tag, data = file_case(rng, tier)
+            try:
+                text = data.decode("utf-8")
+            except UnicodeDecodeError:
+                continue
+            lines = [l for l in text.split("\n")]
+            while lines and (not lines[0].strip() or lines[0].startswith("osu file format")):
+                lines.pop(0)
+            if not lines:
+                continue
+            lead = rng.choice(["  ", "\t", " ", "\n  ", "\n\t", "\u3000", "\r\n "])
+            cases.append(Case("dec9 " + hexs((lead + "\n".join(lines)).encode()), tags=("indented-first-line",)))
+        # runs of thousands of lines that SOME decoders reject and others ignore (storyboard commands under [Events], junk under
+        # [HitObjects] / [General] / [TimingPoints]) in front of sections every decoder reads: a budget of consecutive rejected
+        # lines, or anything else that counts per decoder, shows here only (seed C07-k)
+        big = 6000 if tier == "quick" else 70000
+        head = "osu file format v14\n\n"
+        tail = "[TimingPoints]\n0,400,4,1,0,100,1,0\n1000,-50,4,2,1,60,0,1\n\n[Colours]\nCombo1 : 1,2,3\nSliderBorder : 4,5,6\n\n[Metadata]\nTitle:after the run\nBeatmapID:7\n\n[Difficulty]\nOverallDifficulty:8\n\n[Editor]\nBookmarks: 1,2\n\n[General]\nMode: 1\nAudioLeadIn: 5\n\n[HitObjects]\n64,64,1500,1,0,0:0:0:0:\n"
+        for tag, body in (("storyboard-commands", "[Events]\nSprite,Foreground,Centre,\"sb.png\",320,240\n" + " M,0,0,1000,320,240,330,250\n" * big),
+                          ("junk-in-hitobjects", "[HitObjects]\n" + "x,y\n" * big),
+                          ("junk-in-general", "[General]\n" + "NoSuchKey\n" * big),
+                          ("junk-in-timingpoints", "[TimingPoints]\n" + "a,b\n" * big),
+                          ("junk-in-colours", "[Colours]\n" + "Combo1 : 1,2\n" * big)):
+            cases.append(Case("dec9 " + hexs((head + body + "\n" + tail).encode()), tags=("scale-" + tag,)))
         return cases
 
     def is_nontrivial(self, case, impl_out):
